@@ -42,7 +42,7 @@ MANIFEST = dict(
     technique="Lean 4 proof (two-phase deletion on a reference graph: coverage of purge contexts, refusal before write) + differential correspondence and raw-diff monitor on real deletions",
 )
 
-QUICK = [("write", 40), ("write+frag", 25), ("t52", 25), ("libproj", 10), ("t50", 10)]
+QUICK = [("write", 40), ("write+frag", 25), ("t52", 30), ("libproj", 10), ("t50", 25)]
 THOROUGH = [("write", 60), ("write+frag", 60), ("t52+frag", 40), ("empty52", 10), ("filtering", 20), ("libproj", 25), ("t50", 40), ("t52", 70), ("t60", 40), ("pvmt", 15)]
 TOKEN = re.compile(r"#([0-9a-f]{8}-[0-9a-f]{4}-[0-9a-f]{4}-[0-9a-f]{4}-[0-9a-f]{12})")
 
@@ -114,10 +114,12 @@ def subtree(loader, elem):
     return [elem, *loader.iterdescendants_xt(elem)]
 
 
-def extract_graph(model, target_elem):
-    """references into and out of the target subtree, plus the element universe around them"""
+def extract_graph(model, target_elem, extra=()):
+    """references into and out of the target subtree(s), plus the element universe around them"""
     loader = model._loader
     sub = subtree(loader, target_elem)
+    for x in extra:
+        sub += [y for y in subtree(loader, x) if all(y is not z for z in sub)]
     sub_n = {id(x) for x in sub}
     ids = {x.get("id"): x for x in sub if x.get("id")}
     by_id = {}
@@ -128,7 +130,7 @@ def extract_graph(model, target_elem):
     keep = []
     for e in semantic_elems(loader):
         for k, v in e.attrib.items():
-            if k == "id" or "#" not in v:
+            if k in ("id", "href") or "#" not in v:   # href = containment placeholder of a fragment, not a reference
                 continue
             toks = TOKEN.findall(v)
             if not toks:
@@ -177,6 +179,56 @@ def pick_target(model, rng: random.Random, mode: str):
                 return rng.choice(ends)
         return None
     objs = ol.all_objects(model)
+    if mode == "owner_of_port":
+        # an ancestor of a port that is a physical link end: other references into the subtree are
+        # discovered before the refusing one (the refusal must still leave everything untouched)
+        pls = list(model.search("PhysicalLink"))
+        for pl in rng.sample(pls, min(4, len(pls))):
+            try:
+                ends = list(pl.ends)
+            except Exception:  # noqa: BLE001
+                continue
+            for e in ends:
+                try:
+                    anc = e.parent
+                    if rng.random() < 0.5 and anc.parent is not None:
+                        anc = anc.parent if getattr(anc.parent, "parent", None) is not None else anc
+                    if anc is not None and anc._element.getparent() is not None:
+                        return anc
+                except Exception:  # noqa: BLE001
+                    continue
+        return None
+    if mode == "big_subtree":
+        # a subtree root with several id-carrying members that are referenced from outside
+        referenced: dict[str, set] = {}
+        for e in semantic_elems(model._loader):
+            for k, v in e.attrib.items():
+                if k not in ("id", "href") and "#" in v:
+                    par = e.getparent()
+                    for tkn in TOKEN.findall(v):
+                        referenced.setdefault(tkn, set()).update({id(e), id(par) if par is not None else 0})
+        best, score = None, 0
+        for o in rng.sample(objs, min(120, len(objs))):
+            try:
+                if o.parent is None or o._element.getparent() is None:
+                    continue
+            except Exception:  # noqa: BLE001
+                continue
+            members = [x.get("id") for x in o._element.iter() if isinstance(x.tag, str) and x.get("id")]
+            if not 2 <= len(members) <= 80:
+                continue
+            inside = {id(x) for x in o._element.iter()}
+            per_owner: dict[int, int] = {}
+            for m in members:
+                for ow in referenced.get(m, ()):
+                    if ow not in inside:
+                        per_owner[ow] = per_owner.get(ow, 0) + 1
+            # prefer subtrees in which ONE outside owner refers to SEVERAL members (shared purge context)
+            sc = 10 * max(per_owner.values(), default=0) + len(per_owner)
+            if sc > score:
+                best, score = o, sc
+        if best is not None:
+            return best
     for _ in range(20):
         o = rng.choice(objs)
         try:
@@ -196,7 +248,7 @@ def entry_points(model, tgt, rng: random.Random):
     except Exception:  # noqa: BLE001
         return out
     for r in objops.discover_for(model, parent):
-        if r.kind not in objops.CONTAIN:
+        if not r.contain:
             continue
         try:
             lst = r.get()
@@ -212,15 +264,20 @@ def entry_points(model, tgt, rng: random.Random):
                 out.append(("delattr", lambda r=r: delattr(r.owner, r.attr), r))
                 out.append(("assign-empty", lambda r=r: setattr(r.owner, r.attr, []), r))
             out.append(("decl-delete", lambda r=r: decl_delete(model, r, tgt), r))
+            if len(lst) >= 2 and i + 1 < len(lst):
+                other = lst[i + 1]
+                out.append(("decl-delete-2", lambda r=r, other=other: decl_delete(model, r, tgt, other), r, other))
             break
     return out
 
 
-def decl_delete(model, rel, tgt):
+def decl_delete(model, rel, tgt, other=None):
     from capellambse import decl
 
-    decl.apply(model, __import__("io").StringIO(
-        f"- parent: !uuid {rel.owner.uuid}\n  delete:\n    {rel.attr}:\n      - !uuid {tgt.uuid}\n"))
+    doc = f"- parent: !uuid {rel.owner.uuid}\n  delete:\n    {rel.attr}:\n      - !uuid {tgt.uuid}\n"
+    if other is not None:   # two members of one list in one instruction, in list order
+        doc += f"      - !uuid {other.uuid}\n"
+    decl.apply(model, __import__("io").StringIO(doc))
 
 
 def run(ctx: Ctx) -> Outcome:
@@ -244,15 +301,16 @@ def run(ctx: Ctx) -> Outcome:
                               weights={"delitem": 0, "remove": 0, "clear": 0, "setitem": 0, "delete_referenced": 0, "create_nested": 0})
                 _ROOTS.update(id(t.root) for t in model._loader.trees.values())
             left -= 1
-            mode = rng.choice(["referenced", "referenced", "random", "port_with_link"])
+            mode = rng.choice(["referenced", "referenced", "random", "port_with_link", "owner_of_port", "big_subtree", "big_subtree", "big_subtree"])
             tgt = pick_target(model, rng, mode)
             if tgt is None:
                 continue
             eps = entry_points(model, tgt, rng)
             if not eps:
                 continue
-            name, fn, rel = rng.choice(eps)
-            one_deletion(ctx, out, model, key, tgt, name, fn, rel, mode, req, impl, meta)
+            ep = rng.choice(eps)
+            name, fn, rel = ep[:3]
+            one_deletion(ctx, out, model, key, tgt, name, fn, rel, mode, req, impl, meta, extra=[x._element for x in ep[3:]])
             if _ROOTS != {id(t.root) for t in model._loader.trees.values()}:
                 _ROOTS.clear()
                 _ROOTS.update(id(t.root) for t in model._loader.trees.values())
@@ -272,13 +330,21 @@ def run(ctx: Ctx) -> Outcome:
     return out
 
 
-def one_deletion(ctx, out, model, key, tgt, name, fn, rel, mode, req, impl, meta):
+def one_deletion(ctx, out, model, key, tgt, name, fn, rel, mode, req, impl, meta, extra=()):
     loader = model._loader
     tgt_el = tgt._element
     tgt_uuid = tgt.uuid
-    sub, elems, refs = extract_graph(model, tgt_el)
+    sub, elems, refs = extract_graph(model, tgt_el, extra)
     sub_ids = [x.get("id") for x in sub if x.get("id")]
     sub_n = {id(x) for x in sub}
+
+    def root_of(x):
+        while x.getparent() is not None:
+            x = x.getparent()
+        return id(x)
+
+    spanning = len({root_of(x) for x in sub}) > 1   # the subtree continues in other fragment files
+    span = "|fragment-spanning" if spanning else ""
     # the deleting accessor's own containment relation is not a stored reference; nothing to exclude
     snap0 = ol.tree_snapshot(loader)
     h0, d0 = ol.frag_hashes(loader), ol.index_dump(loader)
@@ -330,10 +396,10 @@ def one_deletion(ctx, out, model, key, tgt, name, fn, rel, mode, req, impl, meta
     scan_ids = {e.get("id") for e in semantic_elems(loader) if e.get("id")}
     for k in sub_ids:
         if k in scan_ids:
-            find("deleted-id-still-in-tree", f"id {k} of the deleted subtree is still in a fragment")
+            find("deleted-id-still-in-tree" + span, f"id {k} of the deleted subtree is still in a fragment")
         try:
             loader[k]
-            find("deleted-id-still-resolvable", f"by_uuid({k}) still succeeds")
+            find("deleted-id-still-resolvable" + span, f"by_uuid({k}) still succeeds")
         except KeyError:
             pass
     # relations of former referrers must not yield a deleted object
@@ -366,6 +432,10 @@ def one_deletion(ctx, out, model, key, tgt, name, fn, rel, mode, req, impl, meta
     gone = set(snap0) - set(snap1)
     gone_ids = {dict(snap0[n][3][1]).get("id") for n in gone} - {None}
     alive_ids = {dict(snap1[n][3][1]).get("id") for n in snap1} - {None}
+    if spanning:
+        # the members that survive in their fragment file are reported above; for the frame they count as deleted
+        alive_ids -= set(sub_ids)
+        gone_ids |= set(sub_ids)
 
     def refs_of(sig):
         return set(TOKEN.findall(" ".join(v for k, v in sig[1] if k != "id")))
